@@ -20,20 +20,32 @@ def gen_chunk(rng, n):
 def gen_fault(rng, n):
     out = []
     while len(out) < n:
-        parser, ty, flags, data, _ = docs.gen_doc(rng)
-        if parser in ("aag", "aig") and rng.random() < 0.3:
-            flags = "w"
+        docs.LAST.clear()
+        if rng.random() < 0.06:    # binary AIGER with multi-byte delta codes, the streaming API, faults inside the codes
+            docs.FORCE_WIDE = True
+            parser, ty, flags, data, _ = docs.gen_doc(rng, parser="aig", valid_only=True)
+            docs.FORCE_WIDE = False
+            flags = "-"
+        else:
+            parser, ty, flags, data, _ = docs.gen_doc(rng)
+            if parser in ("aag", "aig") and rng.random() < 0.3:
+                flags = "w"
         sched = docs.gen_schedule(rng, len(data))
         ks = set([0, len(data), max(0, len(data) - 1)])
         nls = [i + 1 for i, b in enumerate(data) if b == 10]
         for _ in range(3):
             ks.add(rng.choice(nls) if nls and rng.random() < 0.5 else rng.randrange(0, len(data) + 1))
+        if parser == "aig":   # inside multi-byte delta codes: directly after a continuation byte
+            g0, g1 = docs.LAST.get("gate_span", (0, 0))
+            conts = [i + 1 for i, b in enumerate(data) if b >= 0x80 and g0 <= i < g1 and g1 <= len(data)]
+            for _ in range(min(4, len(conts))):
+                ks.add(rng.choice(conts))
         for k in sorted(ks):
             out.append("o_c04 %d " % k + docs.setup(parser, ty, flags, data, sched))
     return out[:n]
 
 def gen_safe(rng, n):
-    out = []
+    out = ["o_c05 " + docs.setup(parser, ty, flags, data, None) for (parser, ty, flags, data) in docs.hostile_cases()]
     for _ in range(n):
         parser, ty, flags, data, _ = docs.gen_doc(rng)
         if rng.random() < 0.5:
